@@ -107,8 +107,9 @@ V2_ProbesInSession(C, a)    == a.wrong = {}
 V4_SkippedNotProbed(C, a)   == \A p \in a.pr : ~(C.has /\ (p[1] \in C.skipAll \/ p \in C.skip))
 V5_RespIdsOnlyIfAsked(C, a) == C.respIds \/ \A p \in a.pr : ~IsRespId(p[2])
 V3_Attempted(C, a)          == C.has => \A s \in C.req \ C.skipAll : s \in a.att
+\* (with a cyclic TesterPresent the probe 3E 00 cannot be told from the keep-alive: 0x3E is exempt then)
 V3_AllProbed(C, a)          == \A s \in Scanned(C, a) : \A sid \in C.U :
-                                  ~Filtered(C, s, sid) => <<s, sid>> \in a.pr
+                                  (~Filtered(C, s, sid) /\ ~(C.tp /\ sid = 62)) => <<s, sid>> \in a.pr
 V1a_OnlySupported(C, E, a, result) == Reported(C, result) \subseteq Allowed(C, E, a)
 V1b_AllSupported(C, E, a, result)  == Expected(C, E, a) \subseteq Reported(C, result)
 
